@@ -351,6 +351,11 @@ func init() {
 				hin.reset()
 				hin.resp = resp
 				inResp, inErr := in.CommitBlock(blk)
+				// nil and empty are different values once the block body is hashed (JSON null vs ""): what Babble
+				// receives must be exactly what the application returned, through either proxy
+				if inErr == nil && (inResp.StateHash == nil) != (resp.StateHash == nil) {
+					viol("commit-response-differs:nil-vs-empty:in-process", fmt.Sprintf("CommitBlock(%s) response(%s): the application returned a state hash with nil=%v, Babble received nil=%v through the in-process proxy", bn, rn, resp.StateHash == nil, inResp.StateHash == nil), map[string]interface{}{"call": "CommitBlock", "block": bn, "response": rn})
+				}
 				vs := vectors
 				if !th && (bi+ri)%4 != 0 {
 					vs = vectors[:1+len(faultKinds)] // quick: all vectors only for a quarter of the payloads, single-fault vectors for the rest
@@ -380,6 +385,9 @@ func init() {
 					}
 					if inErr != nil {
 						continue
+					}
+					if (got.StateHash == nil) != (resp.StateHash == nil) {
+						viol("commit-response-differs:nil-vs-empty:socket", fmt.Sprintf("%s: the application returned a state hash with nil=%v, Babble received nil=%v", label, resp.StateHash == nil, got.StateHash == nil), rp)
 					}
 					if !bytes.Equal(got.StateHash, inResp.StateHash) || !reflect.DeepEqual(normReceipts(got.InternalTransactionReceipts), normReceipts(inResp.InternalTransactionReceipts)) {
 						viol("commit-response-differs:"+rn, fmt.Sprintf("%s: Babble received %v, the application returned %v", label, short200(got), short200(inResp)), rp)
